@@ -25,20 +25,26 @@ RULE = ('row skeleton (exhaustive): renamed / same-name deprecation x same / dif
         'ORDER as a further dimension of every row (the three orders rotate over the fillings of a row): after the register-then-load enforcer, a second enforcer over the same unchanged files is built with another history - '
         'files read first (load_rules() or an early enforce()) and all defaults registered afterwards; files read, some of the defaults registered, an enforce, the rest registered; '
         'or defaults registered (and possibly loaded / asked), Enforcer.clear(), the same defaults registered again and the enforcer taken back into use by a forced load before or after that registration - '
-        'and all its decisions are judged by the unchanged table: the order of registration and loading must not matter.')
+        'and all its decisions are judged by the unchanged table: the order of registration and loading must not matter. '
+        'SPLIT stratum (runs first, own share of the budget; skeleton exhaustive: every ordering of 1-3 successors of ONE predecessor - renamed ones and at most one that KEEPS the old name with a changed default - x flag x old-name override absent / arbitrary / alias x override under a renamed name absent / present): '
+        'every successor is judged SEPARATELY by the table (an entry under the old name is the new-name override of the successor that keeps that name and the old-name override of the renamed ones), defaults registered before or after the files are read, '
+        'while every other attribute of the registered default is varied per successor - deprecated_for_removal with its reason/since, scope_types (matching the token, or not matching with enforce_scope off), DocumentedRuleDefault description/operations, reason/since given on the DeprecatedRule, on the new default (legacy form), on both or nowhere - none of which the table mentions.')
 ASSUMPTIONS = ['role leaves evaluate as C01/C04 state',
                'an old-name override textually equal to the deprecated default is left unconstrained (statement)']
 LEVEL_TEXT = ('The table of the statement is finite in its skeleton and enumerated completely; the check strings are '
               'sampled from the expression generator and compared semantically under all role subsets.')
 LEVEL_NOTE = 'trusted: the reference implementation of the override table (20 lines) and the AST evaluator'
 PLAN = {'quick': dict(shards=4, wall=120), 'thorough': dict(shards=16, wall=400)}
+SPLIT_FLOOR = (70, 10, 15, 10)        # about a fifth of what an idle quick run reaches (352, 48, ~75, ~52)
 MIN = {'evaluations': 500, 'decisions': 10000, 'rows_old_override_governs': 50, 'rows_or_merge': 50,
        'rows_new_override_governs': 50, 'rows_alias': 50, 'phase2_cases': 100, 'rows_old_name_still_registered': 50, 'rows_old_override_in_both_layers': 20,
        'rows_old_override_lexical_variant': 60, 'phase2_old_override_lexical_variant': 10,
        'rows_predecessor_enforcer': 150, 'rows_predecessor_merged_then_new_defaults_enforced': 20,
        'predecessor_newdef_top_or': 30,
        'rows_order_load-register': 150, 'rows_order_load-partial-enforce-rest': 150, 'rows_order_clear-reuse': 150,
-       'rows_files_read_before_registration_old_override_governs': 100, 'rows_files_read_before_registration_or_merge': 100}
+       'rows_files_read_before_registration_old_override_governs': 100, 'rows_files_read_before_registration_or_merge': 100,
+       'split_cases': SPLIT_FLOOR[0], 'split_renamed_registered_before_same_name_successor_no_old_override': SPLIT_FLOOR[1],
+       'split_for_removal_successor_old_override_governs': SPLIT_FLOOR[2], 'split_for_removal_successor_or_merge': SPLIT_FLOOR[3]}
 ANCHORS = ['oslo_policy.policy:Enforcer._handle_deprecated_rule', 'oslo_policy.policy:Enforcer._record_file_rules',
            'oslo_policy.policy:Enforcer.load_rules', 'oslo_policy.policy:Enforcer.enforce']
 REQUIRED_ANCHORS = ['oslo_policy.policy:Enforcer.enforce', 'oslo_policy.policy:Enforcer.load_rules']
@@ -518,7 +524,241 @@ def check_case(ctx, case):
             tree0.cleanup()
 
 
+# ---------------------------------------------------------------------------------------------------------------------
+# SPLIT stratum: ONE deprecated predecessor `svc:old`, 1-3 successors in a given registration order - renamed ones ('R') and
+# at most one that keeps the old name with a changed default ('S') - each judged separately by the table, while every other
+# attribute of the registered defaults varies (the table mentions none of them).
+SPLIT_COMPS = (('R',), ('S',), ('R', 'S'), ('S', 'R'), ('R', 'R'), ('R', 'R', 'S'), ('R', 'S', 'R'), ('S', 'R', 'R'))
+SPLIT_PER_ROW = {'quick': 4, 'thorough': 120}
+SPLIT_SCOPES = (None, None, ['project'], ['system', 'project'], ['project', 'domain'], ['system'], ['domain', 'system'])
+SPLIT_WHERE = ('dep', 'dep', 'default', 'both', 'none')
+OLDNAME = 'svc:old'
+
+
+def split_skeleton():
+    for comp, flag, old_ov, new_ov in itertools.product(SPLIT_COMPS, (True, False), ('absent', 'arbitrary', 'alias'),
+                                                        (False, True)):
+        if 'R' not in comp and (old_ov == 'alias' or new_ov):
+            continue               # nothing renamed: no alias target, and the old-name entry IS the new-name override
+        yield dict(kind='split', comp=list(comp), flag=flag, old_ov=old_ov, new_ov=new_ov)
+
+
+def split_fill(rnd, row):
+    case = dict(row)
+    comp = row['comp']
+    succ, r = [], 0
+    for kd in comp:
+        nm = OLDNAME
+        if kd == 'R':
+            nm, r = 'svc:new%d' % r, r + 1
+        succ.append(dict(kind=kd, name=nm, default=gen_expr(rnd),
+                         removal=rnd.random() < 0.5, where=rnd.choice(SPLIT_WHERE), reason=rnd.randrange(len(REASONS)),
+                         removal_reason=rnd.choice(['going away', '', 'rule:svc:old']), removal_since=rnd.choice(['N', '', '2025.1']),
+                         scope=rnd.randrange(len(SPLIT_SCOPES)), documented=rnd.random() < 0.4))
+    case['succ'] = succ
+    case['olddef'] = gen_expr(rnd)
+    if rnd.random() < 0.25:
+        case['olddef'] = rnd.choice(succ)['default']          # one successor kept the check string
+    renamed = [s['name'] for s in succ if s['kind'] == 'R']
+    case['old_override'] = gen_expr(rnd) if row['old_ov'] == 'arbitrary' else None
+    case['alias_to'] = rnd.choice(renamed) if row['old_ov'] == 'alias' else None
+    case['new_ov_name'] = rnd.choice(renamed) if row['new_ov'] else None
+    case['new_override'] = gen_expr(rnd) if row['new_ov'] else None
+    case['loc_old'] = rnd.choice(['main', 'dir'])
+    case['loc_new'] = rnd.choice(['main', 'dir'])
+    case['main_exists'] = rnd.random() < 0.7
+    case['history'] = rnd.choice(['register-load', 'register-load', 'load-register', 'enforce-register'])
+    case['enforce_scope'] = rnd.random() < 0.5
+    case['suppress_default_change'] = rnd.random() < 0.2
+    case['suppress_deprecation'] = rnd.random() < 0.2
+    return case
+
+
+def check_split(ctx, case):
+    from oslo_policy import policy
+    succ = case['succ']
+    names = [s['name'] for s in succ]
+    defs = [untuple(s['default']) for s in succ]
+    olddef = untuple(case['olddef'])
+    old_override = untuple(case['old_override']) if case['old_override'] else None
+    new_override = untuple(case['new_override']) if case['new_override'] else None
+    flag = case['flag']
+    # a scope that does not contain the (project) scope of the probe credentials is only ever declared with scope enforcement
+    # off; then, as with a matching scope, the decision is that of the check
+    enforce_scope = case['enforce_scope'] and all(
+        SPLIT_SCOPES[s['scope']] is None or 'project' in SPLIT_SCOPES[s['scope']] for s in succ)
+    main, dirf = {}, {}
+    ov = {}                                       # name -> ('expr', ast) | ('alias', target name): what the operator wrote
+    if case['old_ov'] == 'arbitrary':
+        (main if case['loc_old'] == 'main' else dirf)[OLDNAME] = old_override[1]
+        ov[OLDNAME] = ('expr', old_override[0], old_override[1])
+    elif case['old_ov'] == 'alias':
+        (main if case['loc_old'] == 'main' else dirf)[OLDNAME] = 'rule:' + case['alias_to']
+        ov[OLDNAME] = ('alias', case['alias_to'], 'rule:' + case['alias_to'])
+    if new_override:
+        (main if case['loc_new'] == 'main' else dirf)[case['new_ov_name']] = new_override[1]
+        ov[case['new_ov_name']] = ('expr', new_override[0], new_override[1])
+
+    def make_defaults(order, plain=False):
+        out = []
+        for k in order:
+            s = succ[k]
+            reason, since = REASONS[s['reason']]
+            on_dep = plain or s['where'] in ('dep', 'both')
+            dep = policy.DeprecatedRule(OLDNAME, olddef[1], deprecated_reason=(reason or None) if on_dep else None,
+                                        deprecated_since=(since or None) if on_dep else None)
+            kw = dict(deprecated_rule=dep)
+            if not plain:
+                if s['removal']:
+                    kw.update(deprecated_for_removal=True, deprecated_reason=s['removal_reason'],
+                              deprecated_since=s['removal_since'])
+                elif s['where'] in ('default', 'both'):
+                    kw.update(deprecated_reason=reason or None, deprecated_since=since or None)      # legacy placement
+                if SPLIT_SCOPES[s['scope']] is not None:
+                    kw['scope_types'] = list(SPLIT_SCOPES[s['scope']])
+            if s['documented'] and not plain:
+                out.append(policy.DocumentedRuleDefault(s['name'], defs[k][1], 'what %s does' % s['name'],
+                                                        [{'path': '/v1/x', 'method': 'GET'}], **kw))
+            else:
+                out.append(policy.RuleDefault(s['name'], defs[k][1], **kw))
+        return out
+
+    tree = files.Tree(dirs=('pd',))
+    try:
+        if main or case['main_exists']:
+            tree.write('policy.yaml', main, 'json')
+        if dirf:
+            tree.write('pd/x.yaml', dirf, 'yaml-lines')
+
+        def build(order, plain=False, history=None):
+            e = policy.Enforcer(tree.conf(enforce_new_defaults=flag, enforce_scope=enforce_scope))
+            if case.get('suppress_default_change'):
+                e.suppress_default_change_warnings = True
+            if case.get('suppress_deprecation'):
+                e.suppress_deprecation_warnings = True
+            h = history or case['history']
+            if h == 'load-register':
+                e.load_rules()
+            elif h == 'enforce-register':
+                try:
+                    e.enforce('svc:unrelated', {}, {'roles': []})
+                except Exception:
+                    pass
+            for d in make_defaults(order, plain):
+                e.register_default(d)
+            return e
+
+        def decide(e, nm, roles):
+            try:
+                return bool(e.enforce(nm, {}, {'roles': list(roles)}))
+            except Exception as exc:
+                return 'EXC:' + type(exc).__name__
+
+        # ---- reference: the statement's table, for each successor separately ----
+        def ev_entry(entry, truth):
+            if entry[0] == 'alias':
+                return effective(names.index(entry[1]), truth)            # `rule:<name>`: whatever that policy decides
+            return expr.ev(entry[1], truth)
+
+        def effective(k, truth):
+            nm = names[k]
+            if nm in ov:
+                return ev_entry(ov[nm], truth)                               # override under the new name governs
+            if succ[k]['kind'] == 'R' and OLDNAME in ov and not (ov[OLDNAME][0] == 'alias' and ov[OLDNAME][1] == nm):
+                return ev_entry(ov[OLDNAME], truth)                          # override under the old, renamed name governs
+            v = expr.ev(defs[k][0], truth)
+            if not flag and olddef[1] != defs[k][1]:
+                v = v or expr.ev(olddef[0], truth)
+            return v
+
+        def open_(k):
+            # statement: an old-name override textually equal to the deprecated default is unconstrained (renamed successors)
+            return (succ[k]['kind'] == 'R' and names[k] not in ov and OLDNAME in ov and ov[OLDNAME][2] == olddef[1])
+
+        by_old = [k for k in range(len(succ)) if succ[k]['kind'] == 'R' and names[k] not in ov and OLDNAME in ov
+                  and not (ov[OLDNAME][0] == 'alias' and ov[OLDNAME][1] == names[k]) and not open_(k)]
+        by_or = [k for k in range(len(succ)) if names[k] not in ov and k not in by_old and not open_(k)
+                 and not flag and olddef[1] != defs[k][1]]
+        ctx.case(case, nontrivial=bool(by_old or by_or), stratum='split')
+        ctx.count('split_cases')
+        if 'S' in case['comp'] and case['comp'].index('S') > 0 and case['old_ov'] == 'absent':
+            ctx.count('split_renamed_registered_before_same_name_successor_no_old_override')
+        if any(succ[k]['removal'] for k in by_old):
+            ctx.count('split_for_removal_successor_old_override_governs')
+        if any(succ[k]['removal'] for k in by_or):
+            ctx.count('split_for_removal_successor_or_merge')
+        order = list(range(len(succ)))
+        enf = build(order)
+        for k, nm in enumerate(names):
+            if open_(k):
+                ctx.unconstrained('old-override-equals-deprecated-default')
+                continue
+            for roles in SUBSETS:
+                truth = [r in roles for r in ROLES]
+                want = effective(k, truth)
+                got = decide(enf, nm, roles)
+                ctx.count('decisions')
+                if got == want:
+                    continue
+                # diagnosis from further observations: the same files and check strings with (1) defaults that carry nothing
+                # but name, check string and DeprecatedRule, (2) this successor registered before its siblings
+                plain = decide(build(order, plain=True), nm, roles)
+                rev = decide(build([k] + [x for x in order if x != k]), nm, roles) if len(order) > 1 else None
+                if isinstance(got, str):
+                    key = 'enforce-raises'
+                elif plain == want:
+                    key = 'other-attribute-of-the-registered-default-changes-the-deprecated-rule-merge'
+                elif rev == want:
+                    key = 'decision-depends-on-registration-order-of-successors-sharing-one-predecessor'
+                elif nm in ov:
+                    key = 'new-name-override-not-governing'
+                elif k in by_old:
+                    key = 'old-name-override-not-governing'
+                elif succ[k]['kind'] == 'R' and OLDNAME in ov:
+                    key = 'alias-override-not-ignored'
+                elif flag:
+                    key = 'old-default-used-with-enforce_new_defaults'
+                else:
+                    key = 'old-default-not-ored'
+                s = succ[k]
+                ctx.violation(key, case, {'policy': nm, 'roles': roles, 'expected': want, 'observed': got,
+                                          'successors_in_registration_order': [
+                                              dict(name=x['name'], default=untuple(x['default'])[1],
+                                                   deprecated_for_removal=x['removal'], scope_types=SPLIT_SCOPES[x['scope']],
+                                                   documented=x['documented'], reason_since_on=x['where']) for x in succ],
+                                          'deprecated': {'name': OLDNAME, 'check_str': olddef[1]},
+                                          'files': {'main': main, 'dir': dirf}, 'enforce_new_defaults': flag,
+                                          'enforce_scope': enforce_scope, 'history': case['history'],
+                                          'same_decision_with_bare_defaults': plain,
+                                          'same_decision_with_this_successor_registered_first': rev,
+                                          'this_successor': dict(deprecated_for_removal=s['removal'], kind=s['kind'])})
+                return
+    finally:
+        tree.cleanup()
+
+
+def run_split(ctx):
+    rows = list(split_skeleton())
+    per = SPLIT_PER_ROW[ctx.tier]
+    done = True
+    ctx.reserve(0.2)
+    for j in range(per):
+        for r, row in enumerate(rows):
+            idx = r * per + j + 1
+            if not ctx.mine(idx):
+                continue
+            if ctx.expired():
+                done = False
+                break
+            check_split(ctx, split_fill(ctx.sub_rnd('split', idx), row))
+        if not done:
+            break
+    ctx.release()
+    ctx.stratum('split-skeleton', exhaustive=done)
+
+
 def run(ctx):
+    run_split(ctx)
     rows = list(skeleton())
     per = PER_ROW[ctx.tier]
     done = True
@@ -545,4 +785,6 @@ def run(ctx):
 
 
 def replay(ctx, case):
+    if case.get('kind') == 'split':
+        return check_split(ctx, case)
     check_case(ctx, case)
